@@ -672,11 +672,17 @@ fn run_case(c: &Case, known: &Known) -> Verdict {
                         let mut r = Rng::new(*seed);
                         let mut done = 0u16;
                         let mut tries = 0u32;
-                        while done < *n && tries < 200_000 {
+                        // bucket 255: the bucket of the object written first in this history
+                        let want = if *bucket == 255 {
+                            w.objs.first().map_or(0, |o| cascette_client_storage::index::IndexManager::bucket_for_key(&EncodingKey::from_bytes(o.ekey)))
+                        } else {
+                            *bucket & 0x0F
+                        };
+                        while done < *n && tries < 2_000_000 {
                             tries += 1;
                             let data = r.bytes(8);
                             let k = payload::ekey_n(&data);
-                            if cascette_client_storage::index::IndexManager::bucket_for_key(&EncodingKey::from_bytes(k)) != (*bucket & 0x0F) || w.st.contains_key(&k) {
+                            if cascette_client_storage::index::IndexManager::bucket_for_key(&EncodingKey::from_bytes(k)) != want || w.st.contains_key(&k) {
                                 continue;
                             }
                             w.do_write(Arc::new(data), None, Class::Random, 0, 0, false).await?;
@@ -919,7 +925,7 @@ fn main() {
     ck.run(
         Section::enumerate(
             "one-bucket-fill",
-            "container and installation x n = 1..=200 (and 6 larger counts up to 640): n distinct small objects whose keys all fall into one index bucket, written without a flush, then Reopen and a read of every object; and the same after an earlier flushed batch of 30 (update-log pages hold 21 entries: every page boundary and partial last page is crossed)",
+            "container and installation x n = 1..=200 (and 6 larger counts up to 640): n distinct small objects whose keys all fall into one index bucket, written without a flush, then Reopen and a read of every object; and the same after an earlier flushed batch of 30 (update-log pages hold 21 entries: every page boundary and partial last page is crossed); a key written, removed and written again with 5..45 other updates of its bucket in between; 3800 objects in one bucket (sorted section above 64 KiB) followed by two unflushed writes and a reopen",
             move || {
                 let mut v = Vec::new();
                 for sys in [Sys::Container, Sys::Installation] {
@@ -933,6 +939,59 @@ fn main() {
                                 ops: vec![Op::FillBucket { bucket, n: 30, seed: seed ^ 0x5151 }, Op::Flush, Op::FillBucket { bucket, n, seed: seed ^ u64::from(n) }, Op::Reopen, Op::FillBucket { bucket, n: 3, seed: seed ^ 0x77 }, Op::Reopen],
                             });
                         }
+                    }
+                }
+                // a key written, removed and written again with 5 / 20 / 21 / 22 / 45 other updates of its
+                // bucket in between (an update-log page holds 21 records), no flush
+                for between in [5u16, 20, 21, 22, 45] {
+                    v.push(Case {
+                        sys: Sys::Container,
+                        sweep_every_step: false,
+                        ops: vec![
+                            Op::Write { class: Class::Random, len: 40, seed: seed ^ 0xA, mode: 0 },
+                            Op::Remove(0),
+                            Op::FillBucket { bucket: 255, n: between, seed: seed ^ u64::from(between) },
+                            Op::Rewrite(0),
+                            Op::Read(0),
+                            Op::Reopen,
+                        ],
+                    });
+                }
+                // more than 64 KiB of sorted index records in one bucket (3640+ entries of 18 bytes),
+                // then two more unflushed writes and a reopen
+                for sys in [Sys::Container, Sys::Installation] {
+                    let mut ops = vec![Op::FillBucket { bucket: 3, n: 3_800, seed: seed ^ 0x64 }];
+                    if sys == Sys::Container {
+                        ops.push(Op::Flush);
+                    }
+                    ops.extend([Op::FillBucket { bucket: 3, n: 2, seed: seed ^ 0x65 }, Op::Reopen]);
+                    v.push(Case { sys, sweep_every_step: false, ops });
+                }
+                Box::new(v.into_iter())
+            },
+            move |c: &Case| run_case(c, &k),
+        )
+        .shards(16),
+    );
+    // entry sizes (30-byte header + 9-byte frame + content) with telling byte patterns in the size field
+    let k = known.clone();
+    ck.run(
+        Section::enumerate(
+            "entry-size-byte-patterns",
+            "3 systems x contents whose stored entry size is 0xFFFF, 0x10000, 0x10001, 0x10100, 0x1FF00, 0x20000, 0x20100, 0x30100, 0x40200, 0x100000 or 0x100100 bytes: written, read, a small object written behind it, reopened, read".to_string(),
+            move || {
+                let mut v = Vec::new();
+                for sys in [Sys::Container, Sys::Installation, Sys::Archive] {
+                    for total in [0xFFFFu32, 0x1_0000, 0x1_0001, 0x1_0100, 0x1_FF00, 0x2_0000, 0x2_0100, 0x3_0100, 0x4_0200, 0x10_0000, 0x10_0100] {
+                        v.push(Case {
+                            sys,
+                            sweep_every_step: true,
+                            ops: vec![
+                                Op::Write { class: Class::Random, len: total - 39, seed: seed ^ u64::from(total), mode: 0 },
+                                Op::Write { class: Class::Random, len: 17, seed: seed ^ 0x11, mode: 0 },
+                                Op::Reopen,
+                            ],
+                        });
                     }
                 }
                 Box::new(v.into_iter())
